@@ -22,6 +22,7 @@ func init() {
 			{"LAY-TARGET", 12, ruleLayTarget},
 			{"LAY-REWRITE", 8, ruleLayRewrite},
 			{"PAR-FORCLAUSE", 3, ruleParForClause},
+			{"HND-RANGEINT", 1, ruleHndRangeInt},
 		},
 	})
 }
@@ -780,4 +781,50 @@ func ruleParForClause(c *Ctx, r *R) {
 	if n == 0 {
 		r.undecided("forNud", c.Pos(fd), "no clause expression found")
 	}
+}
+
+// HND-RANGEINT: `for i := range n` over an integer counts 0..n-1 (Go 1.22). The RANGE
+// handler tells its operands apart by kind; a number has no object (value == nil) and must
+// not be mistaken for a nil container, whose loop body never runs. Decided: the handler
+// builds an iterator from the operand itself on a path other than operand.Range() — the
+// counting iterator — besides the nil-container iterator.
+func ruleHndRangeInt(c *Ctx, r *R) {
+	sw, err := c.execSwitch()
+	if err != nil {
+		r.undecided("exec", "-", err.Error())
+		return
+	}
+	sc := sw.ByLabel["codeRange"]
+	if sc == nil {
+		r.undecided("codeRange", "-", "no handler")
+		return
+	}
+	nIter, counting := 0, false
+	ast.Inspect(sc.Clause, func(n ast.Node) bool {
+		call, ok := n.(*ast.CallExpr)
+		if !ok || c.CalleeName(call) != "newNext" || len(call.Args) != 1 {
+			return true
+		}
+		nIter++
+		inner, ok := unparen(call.Args[0]).(*ast.CallExpr)
+		if !ok {
+			return true
+		}
+		// a plain function (not the operand's Range method) that receives the operand
+		if sel, ok := unparen(inner.Fun).(*ast.SelectorExpr); ok && c.Info.Selections[sel] != nil {
+			return true
+		}
+		for _, a := range inner.Args {
+			if isNamed(c.TypeOf(a), "Value") {
+				counting = true
+			}
+		}
+		return true
+	})
+	if nIter == 0 {
+		r.undecided("codeRange", c.Pos(sc.Clause), "no iterator construction found")
+		return
+	}
+	r.check(counting, "range over an integer", c.Pos(sc.Clause), "an integer operand gets a counting iterator",
+		"the RANGE handler treats every operand without an object as a nil container: `for i := range 3 { .. }` (and `for range n`) loads, runs and silently executes the body zero times")
 }
